@@ -104,6 +104,21 @@ def gen_schedule(rng, i, tier):
     steps = []
     for _ in range(rng.randint(3, 8)):
         steps.append(gen_step(rng, b, cfg, data_files, cats, views, words, tier))
+    alt_key = base + 'config/settings-2024.yaml'
+    if i % 10 == 3 and b['rules_kind'] == 'csv':
+        # one budget, one settings file per year, all on the same legacy CSV: a requested migration under one of them, then ordinary
+        # commands under the other (stratified over the run index)
+        snap[alt_key] = files[base + 'config/settings.yaml'].replace('year: %d' % b['year'], 'year: 2024', 1).encode('utf-8')
+        first_alt = rng.random() < 0.5
+        notty = {'stdin': False, 'stdout': False, 'answers': []}
+
+        def up(alt, extra, kind='up'):
+            return {'kind': kind, 'variant': kind + (':alt' if alt else ':html'), 'argv': ['up', cfg] + (['-s', 'settings-2024.yaml'] if alt else []) + extra,
+                    'cwd': '.', 'env': {}, 'tty': notty, 'out_o': None, 'noembed': False, 'alt': alt}
+        steps = [up(first_alt, ['--migrate'], 'migrate')]
+        for _ in range(rng.randint(2, 4)):
+            alt = (not first_alt) if rng.random() < 0.7 else first_alt
+            steps.append(up(alt, rng.choice([[], ['--format', 'json'], ['--summary'], ['-q']])))
     return {'world': util.snap_to_json(snap), 'steps': steps,
             'model': {'layout': b['layout'], 'cfg': cfg, 'output_dir': b.get('output_dir') or 'output',
                       'html_filename': b.get('html_filename') or 'spending_summary.html'}}
@@ -364,7 +379,8 @@ def check_step(sched, step, pre, post, r):
 
     if kind == 'migrate':
         allowed, dirs = allowed_report_paths(pre, sched, step)
-        mig = {cfg + '/merchants.rules', cfg + '/merchant_categories.csv', cfg + '/settings.yaml'}
+        sname = 'settings-2024.yaml' if step.get('alt') else 'settings.yaml'      # the settings file the budget is run with
+        mig = {cfg + '/merchants.rules', cfg + '/merchant_categories.csv', cfg + '/' + sname}
         csv_pre = pre.get(cfg + '/merchant_categories.csv')
         for rel, ch in changes:
             key = rel.rstrip('/')
@@ -376,10 +392,10 @@ def check_step(sched, step, pre, post, r):
                 continue
             bad('RO', rel, ch)
         # settings only grew
-        s0 = pre.get(cfg + '/settings.yaml')
-        s1 = post.get(cfg + '/settings.yaml')
+        s0 = pre.get(cfg + '/' + sname)
+        s1 = post.get(cfg + '/' + sname)
         if s0 is not None and (s1 is None or not s1.startswith(s0)):
-            bad('RO', cfg + '/settings.yaml', 'rewritten (old bytes are not a prefix)')
+            bad('RO', cfg + '/' + sname, 'rewritten (old bytes are not a prefix)')
         # a requested migration may replace rule files, but never lose what the user had in them: every pre-existing
         # rules / backup file content must still be the content of some file (the original is "kept as a backup")
         have = set(c_ for c_ in post.values() if c_ is not None)
